@@ -15,7 +15,7 @@ package trie
 //@   property C20
 
 //@ func (*Trie).Insert
-//@   requires t != nil && allocated(t) && t != endMarker && markerOK() && minmaxOK(t)
+//@   requires @C20 t != nil && allocated(t) && t != endMarker && markerOK() && minmaxOK(t)
 //@   modifies *
 //@   ensures  marker:: markerOK() && markerSame()
 //@   ensures  monotone:: validKept()
